@@ -29,6 +29,11 @@ const (
 	// the blocks above the client's filter-header tip, which the client has
 	// no committed header to verify against.
 	KLagPush = "lag-push"
+	// KStaleBranch (re-org family): the answer of a peer whose FILTERS are
+	// still those of the branch a re-organisation replaced: for every block of
+	// the range that took the place of another block, the valid filter of the
+	// replaced block at that height under the new block's hash.
+	KStaleBranch = "stale-branch"
 )
 
 // Corruptions of one entry.
@@ -45,6 +50,9 @@ const (
 	CHashInside  = "hash-inside"  // the right filter under the hash of another block inside the range
 	CHashForeign = "hash-foreign" // the right filter under a hash that is no block of the chain / the genesis hash
 	CWrongType   = "wrong-type"   // the right filter with another filter-type byte
+	// COldBranch (re-org family only, not in allCorr): the VALID filter of the
+	// block that a re-organisation replaced at this height, under this block's hash.
+	COldBranch = "old-branch"
 )
 
 var allCorr = []string{CBitflip, CTruncate, CGarbage, CEmpty, CExtend, CNChange, COtherNear, COtherFar,
@@ -83,6 +91,8 @@ func (s Spec) PosClass() string {
 		return "target"
 	case KSilence, KWrongTypeAll, KDupAll, KShuffle, KReverse:
 		return "all"
+	case KStaleBranch:
+		return "reorged"
 	case KExtra:
 		return "outside"
 	case KOmitSome, KDupSome:
@@ -111,6 +121,31 @@ type Call struct {
 	Retries  int    // NumRetries option (0 = not passed: the default of 8)
 	Boundary string // boundary class of the target
 	Repeat   bool   // a target an earlier call already asked for
+	// Re-org family: the chain's height at execution time is only known then.
+	// Rel: the target is the block Back below the tip of the best chain at the
+	// time of the call (Height is filled in at run time). Twin: the call has
+	// the shape (height, batching, cap) of the most recent call issued before
+	// it, whatever chain that one was made on.
+	Rel  bool  `json:",omitempty"`
+	Back int32 `json:",omitempty"`
+	Twin bool  `json:",omitempty"`
+}
+
+// ReorgPhase is one re-organisation of the honest chain between GetCFilter
+// calls: the chain grows by Grow fresh blocks, the Pre rounds fetch filters on
+// it, then the last Depth blocks are replaced by a heavier branch of at least
+// Depth+Extra blocks which every peer announces, and once the client has
+// committed the block and filter headers of the new branch the Post rounds ask
+// for filters on it.
+type ReorgPhase struct {
+	After    int    // executed after this round of Plan.Rounds (and after the restart tied to it)
+	Grow     int    // fresh blocks first (their filters cannot be cached yet)
+	Pre      []Round
+	Depth    int    // blocks of the best chain that get replaced
+	Extra    int    // the new branch has Depth+Extra blocks, more if that is not yet heavier
+	Fast     bool   // new branch mined with a faster pace (more work per block where the preset retargets)
+	Announce string // headers | inv
+	Post     []Round
 }
 
 // Round is a set of per-peer mutations plus the calls issued under them.
@@ -140,7 +175,17 @@ type Plan struct {
 	Lag      int     `json:",omitempty"`
 	LagCalls []Call  `json:",omitempty"`
 	BudgetS  float64 // worst-case seconds of forced worker timeouts planned
+	// Family: "" (mutation scripts on one fixed chain, optionally with re-org
+	// phases woven in) or "reorg" (re-org phases are the scenario).
+	Family string       `json:",omitempty"`
+	Fixed  bool         `json:",omitempty"` // seed-independent scenario
+	Reorgs []ReorgPhase `json:",omitempty"`
 }
+
+// reorgReserve is the number of blocks below the initial tip inside which all
+// re-org activity of a scenario stays (unsolicited VALID filters are only sent
+// below it, so that "no verifiable delivery" stays sharp for re-orged blocks).
+const reorgReserve = 64
 
 // Targets returns every planned target height.
 func (p Plan) Targets() map[int32]bool {
@@ -151,6 +196,20 @@ func (p Plan) Targets() map[int32]bool {
 		}
 	}
 	return m
+}
+
+// NumReorgCalls counts the calls planned inside re-org phases.
+func (p Plan) NumReorgCalls() int {
+	n := 0
+	for _, ph := range p.Reorgs {
+		for _, r := range ph.Pre {
+			n += len(r.Calls)
+		}
+		for _, r := range ph.Post {
+			n += len(r.Calls)
+		}
+	}
+	return n
 }
 
 // NumCalls counts planned calls.
@@ -679,6 +738,20 @@ func MakePlan(seed int64, k int, quick bool) Plan {
 			p.BudgetS += 2
 		}
 	}
+	if k%3 != 1 && k%4 != 2 {
+		// One re-org phase woven into the mutation scenario (not into the ones
+		// that already carry a ≈30 s call or a lag phase). It is drawn from its
+		// own generator, so the rounds above do not depend on it.
+		rr := rand.New(rand.NewSource(seed*1_000_003 + int64(k)*104729 + 50505))
+		budget := 7.0
+		ph := genPhase(rr, p.NPeers, &budget)
+		ph.After = len(p.Rounds) - 1
+		if rr.Intn(2) == 0 {
+			ph.After = rr.Intn(len(p.Rounds))
+		}
+		p.BudgetS += 7.0 - budget
+		p.Reorgs = append(p.Reorgs, ph)
+	}
 	return p
 }
 
@@ -687,6 +760,8 @@ func (p Plan) Describe() string {
 	size := "1100-1999"
 	if p.ChainLen >= 2000 {
 		size = "2000+"
+	} else if p.ChainLen < 1100 {
+		size = "<1100"
 	}
 	pats := map[string]bool{}
 	for _, r := range p.Rounds {
@@ -697,6 +772,17 @@ func (p Plan) Describe() string {
 		ps = append(ps, k)
 	}
 	sort.Strings(ps)
-	return fmt.Sprintf("peers=%d chain=%s persist=%v smallcache=%v unsolicited=%v restart=%v patterns=%v",
+	out := fmt.Sprintf("peers=%d chain=%s persist=%v smallcache=%v unsolicited=%v restart=%v patterns=%v",
 		p.NPeers, size, p.Persist, p.SmallCache, p.Unsolicited, p.RestartAfter >= 0, ps)
+	if len(p.Reorgs) > 0 {
+		var ds []string
+		for _, ph := range p.Reorgs {
+			ds = append(ds, fmt.Sprintf("g%dd%d+%d", ph.Grow, ph.Depth, ph.Extra))
+		}
+		out += fmt.Sprintf(" reorgs=%v", ds)
+	}
+	if p.Family != "" {
+		out = "family=" + p.Family + " " + out
+	}
+	return out
 }
